@@ -4,6 +4,7 @@ import Chewing.Proofs.CliAccept
 import Chewing.Proofs.CliRaw
 import Chewing.Proofs.CliLeaf
 import Chewing.Proofs.CliTrieLink
+import Chewing.Proofs.CliTrieOrder
 import Chewing.Proofs.CliSylValid
 /-!
 # C20 — The dictionary compiler and dumper are inverse on well-formed sources
@@ -651,9 +652,9 @@ append; (c) lookup = the leaf, stably sorted by the comparator of `write`; (d) n
 derived here from C11's theorems about the **bytes** (`Proofs/CliTrieLink.lean`: `C11.builder_is_map` /
 `insert_semantics`, `lookup_correct`, `order_documented` through `sortLeaf`, `entries_correct`,
 `writes_within_limits`), for records valid for the Rust types (`ValidRec`) and files within the limits of
-the format (`Fits`, or simply: `write` returned `Ok`).  Of (b), the enumeration, C11 proves the *set* (each
-(key, phrase) once, leaves in written order) but the order of the keys only up to permutation; the exact
-depth-first order `trieOrder` stays validated by correspondence. -/
+the format (`Fits`, or simply: `write` returned `Ok`).  Of (b), the enumeration, this section uses the *set* (each
+(key, phrase) once, leaves in written order); the exact depth-first ORDER of the keys, `trieOrder`, is section 7
+(`dump_order_linked`, from C11's `entries_order`) — it is no longer an assumption validated by correspondence. -/
 
 open CliTrieLink in
 /-- **the trie back end of the model is the concrete file**: for the records the compiler inserts, inside
@@ -764,7 +765,57 @@ theorem wellformed_source_roundtrip_linked (info : TrieCodec.Info) (hinfo : Trie
   rw [ee] at m1
   exact ⟨h1, h3, tr₁, tr₂, e1, e2, o1, o2, he1, he2, m1, fun x => (hm x).trans (m1 x), hl⟩
 
+/-! ## 7. linked: the ORDER of the dump is the real reader's
+
+The model's `trieEntries` visits the keys in the order `trieOrder` (sorted lexicographically by syllable code with
+a prefix first, cut into the maximal runs "each key a prefix of the next", each run reversed) — so far the
+transcription of `Trie::entries()` that the correspondence run validated.  C11's `entries_order` proves that the
+explicit-stack depth-first walk of the real reader over the bytes `TrieBuilder::write` produced yields exactly
+this order (descents along first children in ascending syllable order, `results.pop()` = deepest first), so the
+`trieOrder` assumption is discharged: the enumeration of the concrete file, record for record and in order, IS
+the model's `entries .trie`, and the text of `chewing-cli dump` is the model's text. -/
+
+open CliTrieLink in
+/-- **`dump_order_linked`** — for the records the compiler inserts (valid for the Rust types) and the bytes
+    `TrieBuilder::write` produced for them: `Trie::new` opens the bytes, and the list the real `entries()` yields is,
+    as records, EQUAL to the model's `entries .trie rs` (same records, same order — an equation of lists, not of
+    sets); so both output formats of `dump` print the model's lines in the model's order -/
+theorem dump_order_linked (info : TrieCodec.Info) (hinfo : TrieCodec.ValidInfo info) (rs : List Rec)
+    (hv : ∀ r ∈ rs, ValidRec r) (bytes : Der.Bytes)
+    (hw : (TrieCodec.Builder.ofEntries info (rs.map toEntry)).write = some bytes) :
+    ∃ tr ents, TrieCodec.openTrie bytes = some tr ∧ TrieCodec.entries tr = .ok ents ∧
+      ents.map ofEntry = entries .trie rs ∧
+      ∀ csv, dump csv (ents.map ofEntry) = dump csv (entries .trie rs) := by
+  obtain ⟨tr, ho, ents, he, heq⟩ := trie_entries_exact info hinfo rs hv bytes hw
+  exact ⟨tr, ents, ho, he, heq, fun csv => by rw [heq]⟩
+
+/-- the order spelled out: the model's enumeration lists the keys of the builder in `trieOrder`, every key with
+    its leaf in written order (definitional; with `dump_order_linked` this is the real reader's order) -/
+theorem dump_order_spelled (rs : List Rec) :
+    entries .trie rs = (trieOrder (keysOf (trieBuild rs))).flatMap fun k =>
+      (trieLookup (trieBuild rs) k).map (mkRec k) := rfl
+
+open CliTrieLink in
+/-- **recompiling the dump, concrete files, in order**: the file compiled from the dump of the first file
+    enumerates the SAME list as the first (the model's `dump_compile_roundtrip` "same entries in the same order"
+    now holds of the two byte-level files) -/
+theorem recompiled_entries_trie_linked (info : TrieCodec.Info) (hinfo : TrieCodec.ValidInfo info) (ins : List Rec)
+    (hv : ∀ r ∈ ins, ValidRec r) (bytes₁ bytes₂ : Der.Bytes)
+    (hw₁ : (TrieCodec.Builder.ofEntries info (ins.map toEntry)).write = some bytes₁)
+    (hw₂ : (TrieCodec.Builder.ofEntries info ((entries .trie ins).map toEntry)).write = some bytes₂) :
+    ∃ tr₁ tr₂ ents₁ ents₂, TrieCodec.openTrie bytes₁ = some tr₁ ∧ TrieCodec.openTrie bytes₂ = some tr₂ ∧
+      TrieCodec.entries tr₁ = .ok ents₁ ∧ TrieCodec.entries tr₂ = .ok ents₂ ∧
+      ents₂.map ofEntry = ents₁.map ofEntry := by
+  obtain ⟨tr₁, o1, e1, he1, q1⟩ := trie_entries_exact info hinfo ins hv bytes₁ hw₁
+  obtain ⟨tr₂, o2, e2, he2, q2⟩ := trie_entries_exact info hinfo _ (entries_valid hv) bytes₂ hw₂
+  refine ⟨tr₁, tr₂, e1, e2, o1, o2, he1, he2, ?_⟩
+  rw [q1, q2]
+  exact trie_roundtrip (trieBuild_inv ins)
+
 /-! ## non-vacuity: concrete instances of the hypotheses -/
+
+/-- §7: a sorted key list with two descents: `[1] ⊂ [1,2]` comes out deepest first, `[1,3]` and `[2]` follow -/
+example : trieOrder [[2], [1, 3], [1], [1, 2]] = [[1, 2], [1], [1, 3], [2]] := by decide
 
 /-- `測試 9318 ㄘㄜˋ ㄕˋ` -/
 example : WellFormedRecord ⟨[28204, 35430], 9318, [10268, 8708]⟩ := by decide
